@@ -23,7 +23,7 @@ import DadiVerif.Model.DataDict
    direct1 n cols                           -> ok S pi watterson thetaL tajvar | S pi watterson thetaL tajvar   (direct | via spectrum)
    direct_tajima sqrtC n cols               -> ok Ddirect Dspec
    direct_fst ns mcols                      -> ok direct spec
-   sstate pol mc proj                       -> ok mask            mask of the spectrum after `fs.S()` (generated `sBody` run by `sRun`)
+   sstate proj mask                         -> ok mask | err dim  mask of a spectrum with mask `mask` after `fs.S()` (generated `sBody` run by `sRun`)
    projw m n i j / chunkidx size p / shapes -> ok … -/
 namespace DadiVerif.Driver.DataDict
 open DadiVerif DadiVerif.Proto DadiVerif.DataDict DadiVerif.Gen.DD
@@ -202,9 +202,10 @@ def handle (toks : List String) : Option String :=
   | ["chunkidx", size, p] => do
       let size ← size.toNat?; let p ← p.toNat?
       some ("ok " ++ toString (chunkIdx size p))
-  | ["sstate", pol, mc, proj] => do
-      let pol ← parseBool pol; let mc ← parseBool mc; let proj ← parseNatList proj
-      some ("ok " ++ showMask proj (sRun proj (fun _ => 0) (maskAt pol mc proj)).live)
+  | ["sstate", proj, mask] => do
+      let proj ← parseNatList proj; let mask ← parseND mask
+      if mask.shape ≠ shapeOf proj then some "err dim"
+      else some ("ok " ++ showMask proj (sRun proj (fun _ => 0) (fun idx => mask.get idx != 0)).live)
   | ["shapes13"] =>
       some ("ok " ++ " ".intercalate ([accumulateShapeOk, foldIffUnpolarized, fromDataDictShapeOk, sShapeOk, keyParseShapeOk,
         chunkLoopShapeOk, chunkRebuildShapeOk, bootstrapShapeOk, foldMaskShapeOk, statsSelfWrites.isEmpty].map fun (b : Bool) => if b then "1" else "0"))
